@@ -205,6 +205,9 @@ def _derived(draw):
         else:
             spec = draw(sample_spec(min_d=1, max_d=3, min_n=1, max_n=25, datatypes=('I', 'F'), log_amp=False))
             spec['negatives'] = draw(st.booleans())
+            if draw(st.integers(0, 5)) == 0:
+                spec['n'] = 0                      # a sample gated down to nothing still knows its range
+                spec.pop('specials', None)
             sets.append(dict(kind='sample', spec=spec, to_rfi=draw(st.sampled_from([False, True, 'log'])),
                              col=draw(st.integers(0, len(spec['widths']) - 1))))
     if kind == 'mixed' and draw(st.booleans()):
@@ -286,7 +289,8 @@ def check(case, obs):
                     exp_T = max(exp_T, (float(spec['ranges'][col]) - 1) / 2.0)
                 else:
                     exp_T = max(exp_T, float(spec['ranges'][col]) - 1)
-                mins.append(float(np.min(np.asarray(d)[:, col])))
+                if d.shape[0]:
+                    mins.append(float(np.min(np.asarray(d)[:, col])))
                 data.append(d[:, col] if chmode == 'flat' else d)
         ch = {'pos': common, 'name': 'Common-A', 'flat': None}[chmode]
         obs.label('channel:' + chmode)
